@@ -104,5 +104,16 @@ PROPS["C02"] = {
             "the regex-based _re_search (strings/comments skipped) is not under contract.",
     "undecided": ["regex search vs tokenizer", "pyname identity filter for all programs", "cross-module completeness for all projects"],
 }
+PROPS["C06"] = {
+    "sidecars": ["c06_mapping.py", "c01_collector.py"],
+    "level": "proof",
+    "claim": "Proof level for the binding kernel: ArgumentMapping.__init__ binds positional arguments to the leading parameters, keeps surplus positionals in "
+             "order, binds a keyword naming a parameter to it and keeps the others, and never touches an earlier binding -- for every definition and every call "
+             "Python accepts (three nested loops with invariants; argument texts opaque); the rewritten text goes through the verified ChangeCollector.  "
+             "Changers, re-emission and call-site discovery are bounded stand-ins (grid against the interpreter's own binding; project scenarios).",
+    "note": "definition/call parsers (regex/ast based) are not under contract; requires the call to be valid (distinct parameter names, keywords not repeating a "
+            "positionally bound parameter).",
+    "undecided": ["to_call_info / changers composition theorem", "call-site discovery", "introduce_parameter"],
+}
 _NB = "check not built yet (framework under construction; see DESIGN.md section 8)"
 NOT_APPLICABLE = {"C%02d" % i: _NB for i in range(1, 21)}
